@@ -12,6 +12,7 @@ use std::collections::BTreeSet;
 pub struct C13Oracle {
     quote: Option<Result<u128, String>>,
     router_holds: bool,
+    extra_funds: bool,
     nontrivial: u64,
 }
 
@@ -41,11 +42,14 @@ impl StepOracle for C13Oracle {
     fn pre_step(&mut self, w: &mut World, _step: &Step, intent: &Intent, _gs: &GenState) {
         self.quote = None;
         self.router_holds = false;
-        if let Intent::Route { ops, delivered, .. } = intent {
+        self.extra_funds = false;
+        if let Intent::Route { ops, delivered, extras, .. } = intent {
             let q: Result<SimulateSwapOperationsResponse, String> =
                 w.query(w.router.as_str(), &RouterQuery::SimulateSwapOperations { offer_amount: Uint128::new(delivered.1), operations: ops.clone() });
             self.quote = Some(q.map(|r| r.amount.u128()));
-            self.router_holds = route_assets(ops).iter().any(|a| w.balance(a, w.router.as_str()) > 0);
+            // coins attached besides the input are in the router while the route runs
+            self.router_holds = route_assets(ops).iter().any(|a| w.balance(a, w.router.as_str()) > 0 || extras.iter().any(|(e, v)| e == a && *v > 0));
+            self.extra_funds = !extras.is_empty();
         }
     }
     fn on_step(&mut self, cx: &mut StepCtx, classes: &mut Vec<&'static str>) -> Verdict {
@@ -81,6 +85,12 @@ impl StepOracle for C13Oracle {
         }
         if self.router_holds {
             classes.push("x:excluded-router-holds-assets");
+            return Verdict::Pass;
+        }
+        if self.extra_funds {
+            // a further coin of a denom the route does not trade: the sender's ledger carries it to the router,
+            // which is outside the statement's settlement (only the input is consumed)
+            classes.push("x:excluded-extra-funds");
             return Verdict::Pass;
         }
         classes.push("r:route-ok");
